@@ -78,4 +78,10 @@ CLAIMED['C04'] = dict(
     technique='CrossHair-engine symbolic execution of the tokenizer family / header generator on symbolic strings and a symbolic category container; documents under symbolic selections against a cell model',
     design='5 C04')
 
+CLAIMED['C18'] = dict(
+    text=BMC + 'C18: (a) createImporter on a SYMBOLIC header string; (a2) the import rule of the seven non-kern spine importers executed with SYMBOLIC cell text for EVERY parse outcome (the kern parse is replaced by a stub that raises or returns a token of any of the 37 categories, an over-approximation of the parser): never raises, shared structure kept as the very parsed token, everything else verbatim text with the spine type\'s own category; (b) the real parser on a corpus covering every tandem interpretation it accepts plus notes, barlines, free text and garbage under each spine type vs **kern; (c) documents presenting the same rows under each type: identical barline detection / measure index.',
+    note=NOTE + 'Shared structure is the documented closure of STRUCTURAL, SIGNATURES, EMPTY, BARLINES, IMAGE_ANNOTATIONS, COMMENTS (README tree). **mens and the empty cell are outside.',
+    technique='CrossHair-engine symbolic execution of createImporter and the *SpineImporter.import_token rule on symbolic strings with an over-approximating parser stub; z3-enumerated corpus through the real parser',
+    design='5 C18')
+
 PENDING_REASON = 'check under construction in this session (to be claimed; see DESIGN.md section 5)'
